@@ -143,6 +143,9 @@ func PrepareExternal(ctx context.Context, log *Log, mode, binary string, spec Sp
 func PrepareExternalNode(ctx context.Context, log *Log, mode, binary string, spec Spec, perms map[string]map[string]string, node Node) (*ExternalEnv, error) {
 	pki, other := node.PKI, node.Other
 	var err error
+	if _, err = HostTrust(); err != nil {
+		return nil, err
+	}
 	if pki == nil {
 		if pki, err = NewPKI("verif CA"); err != nil {
 			return nil, err
